@@ -24,9 +24,26 @@ static void verif_write_content(const SDAI_Select *, ostream &out, const char *s
 #include "select_extract.inc"
 /* recording contract stub of the select value reader */
 static int g_sr_calls, g_sr_add; static InstMgrBase *g_sr_insts; static const char *g_sr_sch, *g_sr_utype; static Severity g_sr_sev; static int g_cri_calls;
-Severity SDAI_Select::STEPread(istream &, ErrorDescriptor *, InstMgrBase *insts, const char *utype, int add, const char *sch) { g_sr_calls++; g_sr_insts = insts; g_sr_utype = utype; g_sr_add = add; g_sr_sch = sch; return g_sr_sev; }
+static Severity verif_select_STEPread(SDAI_Select *, istream &, ErrorDescriptor *, InstMgrBase *insts, const char *utype, int add, const char *sch) { g_sr_calls++; g_sr_insts = insts; g_sr_utype = utype; g_sr_add = add; g_sr_sch = sch; return g_sr_sev; }
 Severity CheckRemainingInput(istream &, ErrorDescriptor *e, const char *, const char *) { g_cri_calls++; return e->severity(); }
 #include "selnode_extract.inc"
+/* ---- environment of the select value reader ---- */
+static int g_in_list, g_unique, g_assign_ok; static TypeDescriptor *g_member;
+static int g_content_reads, g_content_add; static InstMgrBase *g_content_insts; static const char *g_content_utype, *g_content_sch; static Severity g_content_sev;
+static int g_ref_calls, g_ref_add; static InstMgrBase *g_ref_insts; static SDAI_Application_instance *g_ref_result; static int g_nullify_calls;
+const TypeDescriptor *SDAI_Select::SetUnderlyingType(const TypeDescriptor *td) { if (td) underlying_type = (TypeDescriptor *)td; return (TypeDescriptor *)td; }   /* (the front end drops the const of the declared return type) */
+const TypeDescriptor *SDAI_Select::CanBeSet(const char *, const char *) const { if (g_in_list) return g_member; return (TypeDescriptor *)0; }
+const TypeDescriptor *SDAI_Select::CanBe(BASE_TYPE) const { if (g_in_list) return g_member; return (TypeDescriptor *)0; }
+int SDAI_Select::IsUnique(const BASE_TYPE) const { return g_unique; }
+void SDAI_Select::nullify() { g_nullify_calls++; underlying_type = 0; }
+std::string SDAI_Select::Error() { return std::string(""); }
+Severity SDAI_Select::severity() const { return g_content_sev; }
+static Severity verif_read_content(SDAI_Select *, istream &in, InstMgrBase *insts, const char *utype, int add, const char *sch = 0)
+{   /* contract: reads the value (here one character) */
+    g_content_reads++; g_content_insts = insts; g_content_utype = utype; g_content_add = add; g_content_sch = sch; in.get(); return g_content_sev; }
+static const TypeDescriptor *verif_AssignEntity(SDAI_Select *, SDAI_Application_instance *) { if (g_assign_ok) return g_member; return (TypeDescriptor *)0; }
+SDAI_Application_instance *ReadEntityRef(istream &in, ErrorDescriptor *, const char *, InstMgrBase *insts, int add) { g_ref_calls++; g_ref_insts = insts; g_ref_add = add; in.get(); in.get(); return g_ref_result; }
+#include "select_read_extract.inc"
 #include "src/clutils/errordesc.cc"
 #undef private
 #undef protected
@@ -70,4 +87,38 @@ extern "C" void h_SelectNode_STEPread()
     Severity s = n->SelectNode::STEPread(in, &err, td, insts, in_add, "sch");
     __CPROVER_assert(g_sr_calls == 1 && g_sr_insts == insts && g_sr_add == in_add && g_sr_sch != 0 && g_sr_utype == 0, "C14 the select element reader gets the caller's instance set, id offset and schema unchanged");
     __CPROVER_assert(s == (Severity)in_sev && g_cri_calls == 1, "C03 the element's severity is what its value reader reported; what follows the value is checked once");
+}
+
+/* C03: a SELECT value whose type keyword is not in the select list, or a reference to an instance that no member of the list admits,
+ * raises an error; C14: references and nested values are read with the caller's instance set and id offset */
+extern "C" void h_Select_STEPread()
+{
+    IN(int, in_shape); IN(int, in_inlist); IN(int, in_assign); IN(int, in_add); IN(int, in_found);
+    __CPROVER_assume(in_shape >= 0 && in_shape <= 3 && in_add >= 0);
+    const char *txt[4] = { "#5,", "KW(v),", "$,", "," };
+    g_stream_arbitrary = 0; int n = 0; while (txt[in_shape][n]) { g_stream_script[n] = txt[in_shape][n]; n++; } g_stream_len = n;
+    istream in; in._m_state = 0; in._m_have = 0; in._m_consumed = 0;
+    SDAI_Select *s = (SDAI_Select *)malloc(sizeof(SDAI_Select)); s->underlying_type = 0; s->_type = (SelectTypeDescriptor *)malloc(8);
+    g_member = (TypeDescriptor *)malloc(sizeof(TypeDescriptor)); g_nonref = sdaiINTEGER; g_type = sdaiINTEGER;
+    InstMgrBase *insts = (InstMgrBase *)malloc(8);
+    g_in_list = in_inlist != 0; g_unique = 1; g_assign_ok = in_assign != 0; g_content_sev = SEVERITY_NULL;
+    g_ref_result = in_found ? (SDAI_Application_instance *)malloc(sizeof(SDAI_Application_instance)) : ENTITY_NULL;
+    g_content_reads = g_ref_calls = g_nullify_calls = 0;
+    ErrorDescriptor err;
+    Severity r = s->SDAI_Select::STEPread(in, &err, insts, 0, in_add, "sch");
+    if (in_shape == 0) {
+        __CPROVER_assert(g_ref_calls == 1 && g_ref_insts == insts && g_ref_add == in_add, "C14 a reference inside a SELECT is looked up in the caller's instance set with the caller's id offset");
+        if (in_found && in_assign) __CPROVER_assert(r == SEVERITY_NULL, "a reference to an instance that a member of the select list admits is accepted");
+        else __CPROVER_assert(r <= SEVERITY_WARNING && err.severity() <= SEVERITY_WARNING && g_nullify_calls >= 1, "C03 a reference to a missing instance, or to one that no member of the select list admits, raises an error and leaves the select unset");
+        __CPROVER_assert(in._m_consumed == 2, "C09 the delimiter after the reference is left unread");
+    } else if (in_shape == 1) {
+        if (in_inlist) {
+            __CPROVER_assert(g_content_reads == 1 && g_content_insts == insts && g_content_add == in_add && g_content_sch != 0, "C14 the value of a typed SELECT parameter is read with the caller's instance set, id offset and schema");
+            __CPROVER_assert(r == SEVERITY_NULL && in._m_consumed == 5, "a typed parameter KEYWORD(value) of a listed type is read up to and including its closing parenthesis");
+        } else
+            __CPROVER_assert(r <= SEVERITY_WARNING && err.severity() <= SEVERITY_WARNING && g_content_reads == 0, "C03 a SELECT value whose type keyword is not in the select list raises an error");
+    } else if (in_shape == 2)
+        __CPROVER_assert(r == SEVERITY_INCOMPLETE && g_nullify_calls == 1, "$ leaves the select unset (the caller decides whether that is allowed)");
+    else
+        __CPROVER_assert(r <= SEVERITY_WARNING && in._m_consumed == 0, "C03/C09 an empty SELECT value raises an error and the delimiter is left unread");
 }
